@@ -242,11 +242,20 @@ pub fn step(st: &mut HState, op: &HOp) -> Result<StepInfo, Failure> {
                 info.desc = format!("{} skipped: result would be too large", info.desc);
                 return Ok(info);
             }
+            // the VERBOSE parameter (progress visitor instead of the no-op one) is chosen by spare bits of `out`
+            let verbose = (*out >> 2) & 3 == 3;
+            if verbose {
+                info.desc = info.desc.replacen(",false>", ",true>", 1);
+            }
+            match (*prune, verbose) {
+                (true, false) => must(&info.desc, || st.t.compose::<true, false>(&gt))?,
+                (true, true) => must(&info.desc, || st.t.compose::<true, true>(&gt))?,
+                (false, false) => must(&info.desc, || st.t.compose::<false, false>(&gt))?,
+                (false, true) => must(&info.desc, || st.t.compose::<false, true>(&gt))?,
+            };
             if *prune {
-                must(&info.desc, || st.t.compose::<true, false>(&gt))?;
                 info.pruning = true;
             } else {
-                must(&info.desc, || st.t.compose::<false, false>(&gt))?;
                 info.unpruned_compose = true;
             }
             info.structural = true;
